@@ -14,7 +14,7 @@ from allmydata.interfaces import ExistingChildError
 from allmydata.monitor import Monitor
 from allmydata.immutable.upload import FileHandle
 from allmydata.mutable.publish import MutableFileHandle
-from allmydata.mutable.common import MODE_READ
+from allmydata.mutable.common import MODE_READ, NotWriteableError
 from allmydata.util import log, base32
 from allmydata.util.encodingutil import quote_output
 from allmydata.blacklist import (
@@ -52,6 +52,9 @@ class ReplaceMeMixin:
         file_format = get_format(req, "CHK")
         mutable_type = get_mutable_type(file_format)
         if mutable_type is not None:
+            if self.parentnode.is_readonly():
+                # refuse before creating a file we could never link
+                return defer.fail(NotWriteableError())
             data = MutableFileHandle(req.content)
             keypair = get_keypair(req)
             d = client.create_mutable_file(data, version=mutable_type, unique_keypair=keypair)
@@ -94,6 +97,9 @@ class ReplaceMeMixin:
         file_format = get_format(req, "CHK")
         contents = req.fields["file"]
         if file_format in ("SDMF", "MDMF"):
+            if self.parentnode.is_readonly():
+                # refuse before creating a file we could never link
+                return defer.fail(NotWriteableError())
             mutable_type = get_mutable_type(file_format)
             uploadable = MutableFileHandle(contents.file)
             keypair = get_keypair(req)
